@@ -163,9 +163,6 @@ func (x *Exec) choose(label string, n int, costed bool) int {
 	if costed && pick != 0 {
 		x.cost++
 	}
-	if !x.KeepLabels {
-		label = ""
-	}
 	x.Points = append(x.Points, Point{Label: label, N: n, Pick: pick, Costed: costed})
 	return pick
 }
@@ -175,6 +172,25 @@ func (x *Exec) Choose(label string, n int) int { return x.choose(label, n, true)
 
 // All is a free choice: every option is explored at no cost.
 func (x *Exec) All(label string, n int) int { return x.choose(label, n, false) }
+
+// DevLabels lists the costed deviations taken so far as "label=option,...".
+func (x *Exec) DevLabels() string {
+	var sb strings.Builder
+	for _, p := range x.Points {
+		if p.Costed && p.Pick != 0 {
+			if sb.Len() > 0 {
+				sb.WriteByte(',')
+			}
+			sb.WriteString(p.Label)
+			sb.WriteByte('=')
+			sb.WriteString(strconv.Itoa(p.Pick))
+		}
+	}
+	if sb.Len() == 0 {
+		return "-"
+	}
+	return sb.String()
+}
 
 // Cost is the number of deviations taken so far.
 func (x *Exec) Cost() int { return x.cost }
